@@ -203,16 +203,7 @@ Section Stripe.
   Lemma skipped_disk_slot pos nh d f idx b :
     slot_at d pos = SFile f idx b ->
     exists f' b', slot_at (skipped_disk pos nh d) pos = SFile f' idx b' /\ fb_state b' = fb_state b /\ (fb_state b <> SChg -> b' = b).
-  Proof.
-    intro H. destruct nh as [h|]; [|exists f, b; simpl; auto].
-    unfold slot_at in *. change (cd_files (skipped_disk pos (Some h) d)) with (map (mapf (gS pos h)) (cd_files d)).
-    rewrite (find_in_files_map (gS pos h) (gS_pos pos h)).
-    destruct (find_in_files pos (cd_files d)) as [[[f0 i0] b0]|]; [|destruct (find_deleted pos (cd_deleted d)); discriminate].
-    inversion H; subst. eexists. eexists. split; [reflexivity|]. unfold gS.
-    destruct (Nat.eqb (fb_pos b) pos && bstate_eqb (fb_state b) SChg) eqn:E.
-    - apply andb_true_iff in E. destruct E as [_ E]. destruct (fb_state b); simpl in E; try discriminate. split; [reflexivity | congruence].
-    - auto.
-  Qed.
+  Proof. intro H. exists f, b. split; [exact H | split; auto]. Qed.
 
   (* --- the stripe ------------------------------------------------------------------------------------------------------- *)
   Lemma nth_combine3 (slots : list slot) (F : nat -> rd) j :
